@@ -181,7 +181,7 @@ let run_tx (c : cur) (impl : string list) : string * string =
   let pw = if more () && c.a.(c.pos) = "PW" then (ignore (next c); rep (count c) (fun () -> let s = pscript () in let d = opt_datum () in (s, d))) else [] in
   let pc = if more () && c.a.(c.pos) = "PC" then (ignore (next c); rep (count c) (fun () -> let s = pscript () in let d = opt_datum () in let _k = next c in (s, d))) else [] in
   (* derived lists (plain regrouping of tokens): script-source reference inputs and witness scripts *)
-  let ref_of (src, rh, ri) = if src = "r" then [ (bytes_of_hex rh, n_of_string ri) ] else [] in
+  let ref_of (src, rh, ri) = if src = "r" || (String.length src = 2 && src.[0] = 'q') then [ (bytes_of_hex rh, n_of_string ri) ] else [] in
   let mint_live = match mint_raw with None -> [] | Some raw -> List.filter (fun (_, _, _, _, _, _, _, a) -> a <> Z0) raw in
   let script_refs = List.concat (List.map (fun (_, src, _, rh, ri) -> ref_of (src, rh, ri)) si)
                     @ List.concat (List.map (fun (_, _, _, src, rh, ri, _, _) -> ref_of (src, rh, ri)) mint_live) in
